@@ -60,12 +60,15 @@ def writer_task(item):
     spec, h = make_trace(seed)
     res = h["results"]
     fs0 = wp.SimFS()
+    fs0.manage("OUT")
     P0 = wp.PatchSet()
-    P0.set(ppt, "gzip", fs0.module())
+    fs0.install(P0, ppt)
     try:
         ppt.create_main_run_output(None, "OUT", {c: dict(v) for c, v in res.items()})
     finally:
         P0.undo()
+    if "OUT" not in fs0.images:
+        return {"fired": {"enospc": 0, "kill": 0}, "problems": [], "len": 0, "bypassed": True}  # writer went around both seams: no write fault can be injected
     img = fs0.images["OUT"]  # the complete stream of this very writer call (pickle memoisation makes it differ from the run's own)
     problems = []
     fired = {"enospc": 0, "kill": 0}
@@ -74,9 +77,10 @@ def writer_task(item):
             if k >= len(img):
                 continue
             fs = wp.SimFS()
+            fs.manage("OUT")
             fs.write_fault = (kind, k)
             P = wp.PatchSet()
-            P.set(ppt, "gzip", fs.module())
+            fs.install(P, ppt)
             raised = None
             try:
                 with contextlib.redirect_stdout(io.StringIO()):
@@ -146,6 +150,8 @@ def run(ctx):
         witems.append((s, ks))
     wres = runner.pmap(writer_task, witems, timeout=1500)
     for out in wres:
+        if out.get("bypassed"):
+            ctx.probe("writer_bypassed_simulated_disk_no_write_fault_injected")
         ctx.fault("fs.enospc@k", out["fired"]["enospc"])
         ctx.fault("fs.kill@k", out["fired"]["kill"])
         for key, detail, rep in out["problems"]:
